@@ -262,6 +262,8 @@ def errorMsg (b : Box K N P C) (codec : InnerCodec X Y P) (s : Codec K) (errorUr
 inductive CallOut (X Y : Type)
   | result (args : Option X) (kwargs : Option Y)
   | appError (uri : Uri) (args : Option X) (kwargs : Option Y)
+  /-- the exception class the CALLER registered for the error URI (`define` / `@wamp.error`), built from the arguments -/
+  | userError (cls : String) (args : Option X) (kwargs : Option Y)
   | encFailed (e : EncErr)
 deriving Repr, DecidableEq
 
@@ -278,6 +280,23 @@ def onError (b : Box K N P C) (codec : InnerCodec X Y P) (s : Codec K) (errorUri
   | .plain a kw => .appError errorUri a kw
   | .decoded a kw => .appError errorUri a kw
   | .rejected e => .encFailed e
+
+/-- ERROR at the caller with the caller's URI → class registry (`_uri_to_ecls`) and constructors:
+`if enc_err: return enc_err` comes BEFORE the registry lookup, so an encryption failure is never replaced by a mapped
+class; otherwise the registered class is built when its constructor accepts (args, kwargs), else the generic
+application error (C18). -/
+def onErrorMapped (b : Box K N P C) (codec : InnerCodec X Y P) (s : Codec K) (mapped : Uri → Option String)
+    (ctorOk : String → Option X → Option Y → Bool) (errorUri : Uri) (m : AppPayload X Y C) : CallOut X Y :=
+  match receive b codec s true errorUri m with
+  | .rejected e => .encFailed e
+  | .plain a kw =>
+    match mapped errorUri with
+    | some c => if ctorOk c a kw then .userError c a kw else .appError errorUri a kw
+    | none => .appError errorUri a kw
+  | .decoded a kw =>
+    match mapped errorUri with
+    | some c => if ctorOk c a kw then .userError c a kw else .appError errorUri a kw
+    | none => .appError errorUri a kw
 
 def EncErr.uri : EncErr → Uri
   | .noPayloadCodec => "wamp.error.no_payload_codec".toList
